@@ -3,7 +3,7 @@
 From Coq Require Import List NArith Bool Lia ZifyN ZifyBool.
 From SV Require Import Reconciler.Retries Reconciler.Model Reconciler.RetriesProofs Reconciler.CommitProofs
   Reconciler.RoundProofs Reconciler.CoverProofs Reconciler.StepProofs Reconciler.TableWf Reconciler.StreamProofs
-  Reconciler.PhaseProofs Reconciler.RoundInv.
+  Reconciler.PhaseProofs Reconciler.BatchProofs Reconciler.RoundInv.
 Import ListNotations.
 Open Scope N_scope.
 
@@ -113,24 +113,89 @@ Proof.
     apply del_logged_add; [exact D|discriminate].
 Qed.
 
+Lemma batch_collect_dl : forall chs rs e q dels upds nrec lastrev q' dels' upds' nrec' lastrev',
+  del_logged e q -> batch_collect rs chs q dels upds nrec lastrev = (q', dels', upds', nrec', lastrev') -> del_logged e q'.
+Proof.
+  induction chs as [|ch rest IH]; intros rs e q dels upds nrec lastrev q' dels' upds' nrec' lastrev' D H; cbn [batch_collect] in H.
+  - injection H as H1 H2 H3 H4 H5. subst. exact D.
+  - destruct (negb (c_del ch) && negb (is_pending (c_obj ch))); [apply (IH _ _ _ _ _ _ _ _ _ _ _ _ D H)|].
+    destruct (rs <=? nrec + 1).
+    + injection H as H1 H2 H3 H4 H5. subst q'. apply del_logged_clear. exact D.
+    + apply (IH _ _ _ _ _ _ _ _ _ _ _ _ (del_logged_clear _ _ _ D) H).
+Qed.
+
+Lemma batch_deletes_dl : forall dl snap e q e' q', del_logged e q -> batch_deletes snap dl e q = (e', q') -> del_logged e' q'.
+Proof.
+  induction dl as [|d rest IH]; intros snap e q e' q' D H; cbn [batch_deletes] in H.
+  - injection H as H1 H2. subst. exact D.
+  - destruct (do_call e snap true 3 (c_obj d) (c_rev d)) as [e1 ok] eqn:Ec.
+    destruct (do_call_log _ _ _ _ _ _ _ _ Ec) as [c [LC [L1 [L2 [L3 L4]]]]].
+    pose proof (del_logged_mono e e1 [c] q LC D) as D1.
+    apply (IH snap e1 (if ok then q else r_add q (c_obj d) (c_rev d) (c_rev d) true (e_now e1)) e' q'); [|exact H]. destruct ok; [exact D1|].
+    apply del_logged_add; [exact D1|]. intros _. exists c. split; [rewrite LC; apply in_or_app; right; left; reflexivity|].
+    rewrite L1, L2, L3. repeat split.
+Qed.
+
+Lemma batch_update_calls_log : forall upds snap e acc e' l, batch_update_calls snap upds e acc = (e', l) ->
+  exists lg, e_calls e' = e_calls e ++ lg.
+Proof.
+  induction upds as [|c rest IH]; intros snap e acc e' l H; cbn [batch_update_calls] in H.
+  - injection H as H1 H2. subst. exists []. rewrite app_nil_r. reflexivity.
+  - destruct (do_call e snap true 2 (c_obj c) (c_rev c)) as [e1 ok] eqn:Ec.
+    destruct (do_call_log _ _ _ _ _ _ _ _ Ec) as [cl [LC _]].
+    destruct (IH _ _ _ _ _ H) as [lg R]. exists ([cl] ++ lg). rewrite R, LC, app_assoc. reflexivity.
+Qed.
+
+Lemma batch_results_dl : forall l e q res0 q' res', del_logged e q -> batch_results l q res0 = (q', res') -> del_logged e q'.
+Proof.
+  induction l as [|[c ok] rest IH]; intros e q res0 q' res' D H; cbn [batch_results] in H.
+  - injection H as H1 H2. subst. exact D.
+  - apply (IH e (if ok then r_clear q (o_pk (c_obj c)) else q) (res0 ++ [mkRes (c_obj c) (c_rev c) (c_rev c) (o_sid (c_obj c)) ok]) q' res'); [|exact H]. destruct ok; [apply del_logged_clear|]; exact D.
+Qed.
+
+Lemma phase1_dl : forall cf snap chs e q e1 q1 res1 nrec1 lastrev1,
+  del_logged e q -> phase1 cf snap chs e q = (e1, q1, res1, nrec1, lastrev1) -> del_logged e1 q1.
+Proof.
+  intros cf snap chs e q e1 q1 res1 nrec1 lastrev1 D H. unfold phase1 in H. destruct (cf_batch cf).
+  - destruct (batch_collect (cf_rs cf) chs q [] [] 0 0) as [[[[qa dels] upds] nrec] lastrev] eqn:HC.
+    destruct (batch_deletes snap dels e qa) as [e2 q2] eqn:HD.
+    destruct (batch_update_calls snap upds e2 []) as [e3 l] eqn:HU.
+    destruct (batch_results l q2 []) as [q4 res] eqn:HR.
+    injection H as H1 H2 H3 H4 H5. subst e1 q1 res1 nrec1 lastrev1.
+    pose proof (batch_collect_dl _ _ _ _ _ _ _ _ _ _ _ _ _ D HC) as D1.
+    pose proof (batch_deletes_dl _ _ _ _ _ _ D1 HD) as D2.
+    destruct (batch_update_calls_log _ _ _ _ _ _ HU) as [lg L].
+    apply (batch_results_dl _ _ _ _ _ _ (del_logged_mono e2 e3 lg q2 L D2) HR).
+  - destruct (single_dl _ _ _ _ _ _ _ _ _ _ _ _ _ D H) as [X _]. exact X.
+Qed.
+
 (* ------------------------------------------------------------------ the full invariant, rounds and runs *)
 Definition full_inv (e : env) (s : rstate) : Prop :=
   round_inv e s /\ k_prev s <= k_cursor s /\ del_logged e (k_ret s).
 
-Theorem round_keeps_full : forall cf e s e' s', cf_batch cf = false ->
-  full_inv e s -> round cf e s = (e', s') -> full_inv e' s'.
+Theorem round_keeps_full : forall cf e s e' s', full_inv e s -> round cf e s = (e', s') -> full_inv e' s'.
 Proof.
-  intros cf e s e' s' Hb [RI [HP DL]] H.
-  destruct (round_keeps_inv cf e s e' s' Hb RI H) as [RI' _].
+  intros cf e s e' s' [RI [HP DL]] H.
+  destruct (round_keeps_inv cf e s e' s' RI H) as [RI' _].
   split; [exact RI'|].
-  destruct RI as [[W _] _].
-  unfold round, round_gen in H. rewrite Hb in H. cbv zeta in H.
-  destruct (single (cf_rs cf) (e_tab e) (changes_of (e_tab e) (k_cursor s)) e (k_ret s) [] 0 0)
-    as [[[[e1 q1] res1] nrec1] lastrev1] eqn:E1.
+  pose proof RI as [[W [U P]] [Hc Hcov]].
+  unfold round, round_gen in H. cbv zeta in H.
+  change (if cf_batch cf
+          then let '(q, dels, upds, nrec, lastrev) := batch_collect (cf_rs cf) (changes_of (e_tab e) (k_cursor s)) (k_ret s) [] [] 0 0 in
+               let (e0, q0) := batch_deletes (e_tab e) dels e q in
+               let (e1, l) := batch_update_calls (e_tab e) upds e0 [] in
+               let (q1, res) := batch_results l q0 [] in (e1, q1, res, nrec, lastrev)
+          else single (cf_rs cf) (e_tab e) (changes_of (e_tab e) (k_cursor s)) e (k_ret s) [] 0 0)
+    with (phase1 cf (e_tab e) (changes_of (e_tab e) (k_cursor s)) e (k_ret s)) in H.
+  destruct (phase1 cf (e_tab e) (changes_of (e_tab e) (k_cursor s)) e (k_ret s)) as [[[[e1 q1] res1] nrec1] lastrev1] eqn:E1.
+  assert (INV0 : phase_inv (Dlog e) (e_tab e) e (k_ret s) [] (curs (k_cursor s) 0) (changes_of (e_tab e) (k_cursor s))).
+  { constructor; first [assumption | exact Hc | apply snap_rel_refl | apply changes_stream_ok; exact W
+                        | intros ch _ [] | intros r [] | constructor ]. }
+  destruct (phase1_inv _ _ _ _ _ _ _ _ _ _ _ INV0 E1) as [_ LR0].
   assert (LR : lastrev1 = 0 \/ k_cursor s < lastrev1).
-  { destruct (single_lastrev _ _ _ _ _ _ _ _ _ _ _ _ _ E1) as [X|[ch [X1 X2]]]; [left; exact X|right].
+  { destruct LR0 as [X|[ch [X1 X2]]]; [left; exact X|right].
     destruct (changes_stream_ok (e_tab e) (k_cursor s) W) as [_ [_ [_ [_ S5]]]]. specialize (S5 ch X1). lia. }
-  destruct (single_dl _ _ _ _ _ _ _ _ _ _ _ _ _ DL E1) as [D1 [l1 L1]].
+  pose proof (phase1_dl _ _ _ _ _ _ _ _ _ _ DL E1) as D1.
   destruct (commit_status_gen true true (e_now e1) (e_tab e1) q1 res1) as [t1 q2] eqn:C1.
   pose proof (commit_status_dl _ _ _ _ e1 _ _ _ _ D1 C1) as D2.
   destruct (process_retries (N.to_nat (cf_rs cf)) (cf_rs cf) (e_tab e) (set_tab e1 t1) q2 [] nrec1) as [[[e3 q3] res2] nrec3] eqn:R1.
@@ -183,15 +248,15 @@ Proof.
   - intros it [].
 Qed.
 
-(* nothing_forgotten: in every reachable state of a single-mode reconciler — any round size, any
+(* nothing_forgotten: in every reachable state of the reconciler — single or batch mode, any round size, any
    backoff, any fault oracle, any user writes placed between rounds or from inside any operation (hooks),
    any timing — every key is covered *)
-Theorem nothing_forgotten : forall cf st, cf_batch cf = false -> reach cf st -> full_inv (fst st) (snd st).
+Theorem nothing_forgotten : forall cf st, reach cf st -> full_inv (fst st) (snd st).
 Proof.
-  intros cf st Hb H. induction H.
+  intros cf st H. induction H.
   - apply full_inv_init.
   - apply (estep_keeps_full st st'); assumption.
-  - destruct (round cf e s) as [e' s'] eqn:E. apply (round_keeps_full cf e s e' s' Hb IHreach E).
+  - destruct (round cf e s) as [e' s'] eqn:E. apply (round_keeps_full cf e s e' s' IHreach E).
 Qed.
 
 (* ------------------------------------------------------------------ C16: WaitUntilReconciled *)
@@ -205,12 +270,12 @@ Definition attempted_upto (e : env) (s : rstate) : Prop :=
     | Dead _ r => Acall e pk r
     end.
 
-Theorem wur_only_after_attempted : forall cf st, cf_batch cf = false -> reach cf st ->
+Theorem wur_only_after_attempted : forall cf st, reach cf st ->
   k_prev (snd st) <= k_cursor (snd st) /\ attempted_upto (fst st) (snd st) /\
   forall req, snd (wur (snd st) req) = true -> forall pk sl, slot_of (e_tab (fst st)) pk = Some sl -> slot_rev sl <= req ->
     match sl with Live o _ => is_pending o = false | Dead _ r => Acall (fst st) pk r end.
 Proof.
-  intros cf st Hb H. destruct (nothing_forgotten cf st Hb H) as [[_ [_ Hcov]] [HP DL]].
+  intros cf st H. destruct (nothing_forgotten cf st H) as [[_ [_ Hcov]] [HP DL]].
   assert (AU : attempted_upto (fst st) (snd st)).
   { intros pk sl Hs Hle. specialize (Hcov pk). unfold covered in Hcov. rewrite Hs in Hcov.
     destruct sl as [o r|o r]; cbn in Hle.
@@ -255,10 +320,10 @@ Proof.
   - destruct Hcov as [A|[[it [A _]]|A]]; [lia|rewrite Q1 in A; discriminate|exact A].
 Qed.
 
-(* converges_partial: in every reachable quiescent state of a single-mode reconciler the table is
+(* converges_partial: in every reachable quiescent state of the reconciler (either mode) the table is
    reconciled — whatever history of writes, faults and timings led there *)
-Theorem converges_partial : forall cf st, cf_batch cf = false -> reach cf st ->
+Theorem converges_partial : forall cf st, reach cf st ->
   quiescent (fst st) (snd st) -> reconciled (fst st).
 Proof.
-  intros cf st Hb H Q. apply (quiescent_is_reconciled (fst st) (snd st)); [apply (nothing_forgotten cf st Hb H)|exact Q].
+  intros cf st H Q. apply (quiescent_is_reconciled (fst st) (snd st)); [apply (nothing_forgotten cf st H)|exact Q].
 Qed.
